@@ -171,6 +171,11 @@ func (s *DeleteStmt) Validate(ctx *CheckCtx) error {
 }
 
 func (s *SelectStmt) ValidateFields(ctx *CheckCtx) error {
+	// An alias defined in terms of itself (directly or through other
+	// aliases) can never be resolved
+	if err := s.checkAliasCycles(ctx); err != nil {
+		return err
+	}
 	for _, f := range s.Fields {
 		if err := s.validateField(f, ctx); err != nil {
 			return err
@@ -236,6 +241,76 @@ func (s *SelectStmt) checkAggrFuncArg(arg Expression) error {
 		fname, err := GetFuncNameFromExpr(e)
 		if err == nil && IsAggrFunc(fname) {
 			return NewSyntaxError(arg.GetPos(), "Aggregate function arguments should not contains aggregate function")
+		}
+	}
+	return nil
+}
+
+// aliasRefs collects the names in expr that the checker resolves as field
+// aliases: a name that is directly an operand of a binary operator or an
+// argument of a function call
+func aliasRefs(expr Expression, refs []*NameExpr) []*NameExpr {
+	addName := func(e Expression) {
+		if n, ok := e.(*NameExpr); ok {
+			refs = append(refs, n)
+		}
+	}
+	switch e := expr.(type) {
+	case *BinaryOpExpr:
+		addName(e.Left)
+		addName(e.Right)
+		refs = aliasRefs(e.Left, refs)
+		refs = aliasRefs(e.Right, refs)
+	case *NotExpr:
+		refs = aliasRefs(e.Right, refs)
+	case *FunctionCallExpr:
+		for _, arg := range e.Args {
+			addName(arg)
+			refs = aliasRefs(arg, refs)
+		}
+	case *ListExpr:
+		for _, item := range e.List {
+			refs = aliasRefs(item, refs)
+		}
+	case *FieldAccessExpr:
+		refs = aliasRefs(e.Left, refs)
+	}
+	return refs
+}
+
+func (s *SelectStmt) checkAliasCycles(ctx *CheckCtx) error {
+	const (
+		visiting = 1
+		done     = 2
+	)
+	state := make(map[string]int)
+	var visit func(name string) *NameExpr
+	visit = func(name string) *NameExpr {
+		expr, have := ctx.GetNamedExpr(name)
+		if !have {
+			return nil
+		}
+		state[name] = visiting
+		for _, ref := range aliasRefs(expr, nil) {
+			switch state[ref.Data] {
+			case visiting:
+				return ref
+			case done:
+				continue
+			}
+			if bad := visit(ref.Data); bad != nil {
+				return bad
+			}
+		}
+		state[name] = done
+		return nil
+	}
+	for _, name := range ctx.FieldNames {
+		if state[name] != 0 {
+			continue
+		}
+		if bad := visit(name); bad != nil {
+			return NewSyntaxError(bad.GetPos(), "Field name %s refers to itself", bad.Data)
 		}
 	}
 	return nil
